@@ -194,18 +194,21 @@ Fixpoint join_bars (outs : list (list byte)) : list byte :=
   | [o] => o
   | o :: rest => join [o; S_ "||"; join_bars rest]
   end.
-Definition run_seg (m : ovf_mode) (seg : list tok) : list byte :=
-  match seg with c :: a => run_cmd m c a | [] => bad_case end.
 (* REPEAT <n> <cmd> ..: the implementation runs the command n times in a row on one thread and reports whether every answer was the
    first answer; the model is a function: its answer, and SAME *)
+Definition run_seg (m : ovf_mode) (seg : list tok) : list byte :=
+  match seg with
+  | c :: a =>
+    if tok_is c "REPEAT" then
+      match a with
+      | _ :: c' :: a' => join [run_cmd m c' a'; S_ "SAME"]
+      | _ => bad_case
+      end
+    else run_cmd m c a
+  | [] => bad_case
+  end.
 Definition run_cmds (m : ovf_mode) (cmd : tok) (args : list tok) : list byte :=
-  if tok_is cmd "PAIR" then join_bars (map (run_seg m) (split_bars args []))
-  else if tok_is cmd "REPEAT" then
-    match args with
-    | _ :: c :: a => join [run_cmd m c a; S_ "SAME"]
-    | _ => bad_case
-    end
-  else run_cmd m cmd args.
+  if tok_is cmd "PAIR" then join_bars (map (run_seg m) (split_bars args [])) else run_seg m (cmd :: args).
 
 (* an optional first token D / R selects the overflow mode of the build the line is compared with *)
 Definition run_line (line : list byte) : list byte :=
